@@ -155,11 +155,7 @@ class CsrfProtection:
         existing_key: Token | None = Token.get_one(jti=token, token_type=TokenType.CSRF.value)
         if existing_key is not None:
             raise CsrfFailureException("Re-use of csrf_token")
-        expires = datetime.datetime.now() + KEY_LIFETIMES[TokenType.CSRF]
-        existing_key = Token(
-            jti=token, token_type=TokenType.CSRF.value, expires=expires, revoked=False)
-        db.session.add(existing_key)
-        db.session.commit()
+        jti = token
         salt = token[:Token.CSRF_SALT_LENGTH]
         logging.debug(f'check_csrf salt: "{salt}"')
         token = token[Token.CSRF_SALT_LENGTH:]
@@ -178,3 +174,11 @@ class CsrfProtection:
         if token != b64_sig:
             logging.debug("signatures do not match: %s %s", token, b64_sig)
             raise CsrfFailureException("signatures do not match")
+        # Only record (and commit) the token once it has been verified. The
+        # commit also flushes any pending changes of the calling handler,
+        # which must not happen for a request that fails the CSRF check
+        expires = datetime.datetime.now() + KEY_LIFETIMES[TokenType.CSRF]
+        existing_key = Token(
+            jti=jti, token_type=TokenType.CSRF.value, expires=expires, revoked=False)
+        db.session.add(existing_key)
+        db.session.commit()
